@@ -77,6 +77,18 @@ def real(f: list[str]) -> str:
     if op == "iban.is_valid":
         o = IBAN(unhx(f[1]), allow_invalid=True)
         return outcome(lambda: o.is_valid, tf)
+    if op == "iban.obj_seq":
+        # a sequence of calls on ONE object: v = validate(), V = validate(validate_bban=True), i = is_valid
+        o = IBAN(unhx(f[1]), allow_invalid=True)
+        outs = []
+        for step in f[2]:
+            if step == "v":
+                outs.append(outcome(lambda: o.validate(False), tf))
+            elif step == "V":
+                outs.append(outcome(lambda: o.validate(True), tf))
+            else:
+                outs.append(outcome(lambda: o.is_valid, tf))
+        return "ok " + ";".join(outs)
     if op == "iban.parts":
         o = IBAN(unhx(f[1]), allow_invalid=True)
         parts = [hx(o.country_code), hx(o.checksum_digits), hx(str(o.bban)), hx(o.formatted)]
